@@ -36,7 +36,8 @@ LEVEL_TEXT = ("Emitters are enumerated by introspection of the package; each is 
               ' Also two requests built from one params dict with their own progress tokens, and error objects that are not error objects given to every constructor (refused or emitted valid).'
               ' Also every notification sender called for all its argument variants in a row on one write stream, the messages taken off only afterwards (an emitted message must not change after it was handed over), and a null _meta with a progress token.'
               ' Also wide, shallow payloads with hundreds of empty containers and a 100-level payload.'
-              ' Also the stdio wire form of every message under each protocol version recorded on the client (none, 2024-11-05, 2025-03-26, 2025-06-18), bursts from several senders on one write stream, payloads with hundreds of empty containers.')
+              ' Also the stdio wire form of every message under each protocol version recorded on the client (none, 2024-11-05, 2025-03-26, 2025-06-18), bursts from several senders on one write stream, payloads with hundreds of empty containers.'
+              ' Also payloads nested 350 and 600 levels through every constructor.')
 LEVEL_NOTE = ("Trusted: vf/ref.py validator; emitters that could not be driven are listed in evidence. id:null is tolerated "
               "only on the batch-rejection error (request id undeterminable).")
 RULE = ("case = (emitter, payload, id). Non-trivial: payload or id is not the trivial default; distinct = hash(emitter, "
@@ -56,7 +57,9 @@ def payload_objects(ctx) -> List[Dict[str, Any]]:
                                              for i in range(260)]},
                                   {"wide": {f"k{i}": {"v": [i, None]} for i in range(400)}},
                                   # and a moderately deep one (well inside every backend's limits)
-                                  {"deep": gen.nest({"leaf": None}, 100, rng)}]
+                                  {"deep": gen.nest({"leaf": None}, 100, rng)},
+                                  # ... and deeper ones, still inside what both validation backends represent
+                                  {"deep": gen.nest({"leaf": None}, 350, rng)}, {"deep": gen.nest({"leaf": 1}, 600, rng)}]
     for v in vals:
         objs.append({"v": v})
     for k in gen.KEYS:
@@ -91,7 +94,15 @@ def check_emission(ctx, emitter: str, obj: Any, case: Dict[str, Any], *, expect:
         elif isinstance(obj, dict):
             decoded = json.loads(json.dumps(obj))
         else:
-            text = obj.model_dump_json(exclude_none=True)
+            try:
+                text = obj.model_dump_json(exclude_none=True)
+            except ValueError as e:
+                if "depth exceeded" not in str(e):
+                    raise
+                # the typed layer's single-pass JSON writer stops at 255 levels (a limit of that writer, not of the message);
+                # the transports' serialisers take the two-pass route then, and so does the check
+                text = json.dumps(obj.model_dump(exclude_none=True), ensure_ascii=False)
+                ctx.count("emissions_serialised_in_two_passes")
             if "\n" in text or "\r" in text:
                 ctx.violation("raw_line_break", f"{emitter}: serialised form contains a raw line break", case)
             decoded = json.loads(text)
